@@ -149,8 +149,16 @@ Qed.
 Lemma rows_eq_lookup (L R : list point) : L = R -> forall t k, lookup L t k = lookup R t k.
 Proof. intros ->. reflexivity. Qed.
 
-Ltac solve_no_nan := unfold no_nan; vm_compute; repeat constructor.
-Ltac solve_sendable := unfold rows_sendable; vm_compute; repeat constructor.
+(* the rows are evaluated first: normalising the predicates under their binder would expand the comparisons
+   with the 63-bit time bounds into enormous terms *)
+Ltac eval_rows :=
+  repeat match goal with
+         | |- context [nrows ?a ?b] => let l := eval vm_compute in (nrows a b) in change (nrows a b) with l
+         | |- context [edge_rows ?a ?b ?c] => let l := eval vm_compute in (edge_rows a b c) in change (edge_rows a b c) with l
+         end.
+Ltac solve_forall := repeat (apply Forall_cons; [split; vm_compute; reflexivity|]); apply Forall_nil.
+Ltac solve_no_nan := unfold no_nan; eval_rows; solve_forall.
+Ltac solve_sendable := unfold rows_sendable; eval_rows; solve_forall.
 Ltac solve_ties := apply ties_of_check; vm_compute; reflexivity.
 
 Lemma node_data_at x : In x [id_dev; id_c; id_g; id_h] -> node_data cD cU x.
